@@ -910,8 +910,8 @@ fn c07_fragment_number_set_widest__rest() {
 }
 
 // @check props=C07 tier=quick
-// @desc FragmentNumberSet::try_read_from_bytes on truncated input (outside the recorded triggers): numBits 0 and 33 with an all-zero bitmap, symbolic base, SYMBOLIC input length: decodes iff base, numBits and ceil(numBits/32) bitmap words are present; no panic
-// @bounds 16-byte buffer, symbolic length 0..=16, both endiannesses (numBits 0 little-endian, 33 big-endian); unwind 35
+// @desc FragmentNumberSet::try_read_from_bytes on truncated input (outside the recorded triggers): numBits 0 and 33 with an all-zero bitmap, symbolic base, every input length 0..=16: decodes iff base, numBits and ceil(numBits/32) bitmap words are present; no panic
+// @bounds 16-byte buffer, input length enumerated 0..=16 (concrete per call), numBits 0 little-endian / 33 big-endian; unwind 35
 // @assume NOT trigger KF-C07-1, NOT trigger KF-C07-2; numBits in {0, 33}, bitmap zero
 // @enc rtps_messages::submessage_elements::FragmentNumberSet::try_read_from_bytes
 #[kani::proof]
@@ -920,22 +920,24 @@ fn c07_fragment_number_set_truncated__rest() {
     for (le, nb) in [(true, 0u32), (false, 33)] {
         let mut bytes = [0u8; 16];
         let (_base, words) = lay_out_fns(&mut bytes, 0, le, nb, 0);
-        let len: usize = kani::any();
-        kani::assume(len <= 16);
         let e = if le { Endianness::LittleEndian } else { Endianness::BigEndian };
-        let mut d = &bytes[..len];
-        let r = FragmentNumberSet::try_read_from_bytes(&mut d, &e);
-        assert!(r.is_ok() == (len >= 8 + 4 * words), "C07: FragmentNumberSet decodes iff base, numBits and the bitmap words are present");
-        kani::cover!(r.is_err() && nb == 33 && len == 15, "a set with a truncated second bitmap word is rejected");
-        kani::cover!(r.is_ok() && nb == 0 && len == 8, "an empty set decodes from exactly 8 bytes");
-        core::mem::forget(r);
+        let mut len = 0usize;
+        while len <= 16 {
+            let mut d = &bytes[..len];
+            let r = FragmentNumberSet::try_read_from_bytes(&mut d, &e);
+            assert!(r.is_ok() == (len >= 8 + 4 * words), "C07: FragmentNumberSet decodes iff base, numBits and the bitmap words are present");
+            kani::cover!(r.is_err() && nb == 33 && len == 15, "a set with a truncated second bitmap word is rejected");
+            kani::cover!(r.is_ok() && nb == 0 && len == 8, "an empty set decodes from exactly 8 bytes");
+            core::mem::forget(r);
+            len += 1;
+        }
     }
 }
 
 // @check props=C07 tier=quick
-// @desc NackFragSubmessage::try_from_bytes outside the two recorded FragmentNumberSet triggers: symbolic ids / writerSN / count / base, FragmentNumberSet control fields from the family (numBits 0, 4, 33): decodes with the wire base; with numBits 0 and a SYMBOLIC body length: decodes iff 28 bytes are present; no panic
-// @bounds body 36 bytes (ids 8, writerSN 8, set 8 + <= 8, count 4 + trailing); members 1, 3, 5 of FNS_CASES; endianness alternating (flags octet concrete 0/1, submessage id and length symbolic); unwind 35
-// @assume NOT trigger KF-C07-1, NOT trigger KF-C07-2; numBits and bitmap pattern concrete from FNS_CASES
+// @desc NackFragSubmessage::try_from_bytes outside the two recorded FragmentNumberSet triggers: symbolic ids / writerSN / count / base, FragmentNumberSet control fields from the family (numBits 0, 4, 33), body lengths {full, one byte short of the count, without bitmap}: decodes iff the whole body is present, with the wire base; no panic
+// @bounds body 36 bytes (ids 8, writerSN 8, set 8 + <= 8, count 4 + trailing); members 1, 3, 5 of FNS_CASES; body length from {36, 27 + 4*words, 20}; endianness alternating (flags octet concrete 0/1, submessage id and length symbolic); unwind 35
+// @assume NOT trigger KF-C07-1, NOT trigger KF-C07-2; numBits and bitmap pattern concrete from FNS_CASES; body length from the enumerated set
 // @enc rtps_messages::submessages::nack_frag::NackFragSubmessage::try_from_bytes
 #[kani::proof]
 #[kani::unwind(35)]
@@ -947,16 +949,16 @@ fn c07_nack_frag_family__rest() {
         let mut bytes: [u8; 36] = kani::any();
         let (base, words) = lay_out_fns(&mut bytes, 16, le, nb, pat);
         let h = header_with_flags(if le { 1 } else { 0 });
-        let len: usize = if nb == 0 { kani::any() } else { 36 };
-        kani::assume(len <= 36);
-        let r = NackFragSubmessage::try_from_bytes(&h, &bytes[..len]);
-        assert!(r.is_ok() == (len >= 28 + 4 * words), "C07: NACK_FRAG decodes iff its whole body is present");
-        if let Ok(m) = &r {
-            assert!(m.fragment_number_state().base() == base, "C07: NACK_FRAG set base");
+        for len in [36usize, 27 + 4 * words, 20] {
+            let r = NackFragSubmessage::try_from_bytes(&h, &bytes[..len]);
+            assert!(r.is_ok() == (len >= 28 + 4 * words), "C07: NACK_FRAG decodes iff its whole body is present");
+            if let Ok(m) = &r {
+                assert!(m.fragment_number_state().base() == base, "C07: NACK_FRAG set base");
+            }
+            kani::cover!(r.is_ok() && nb == 33, "a NACK_FRAG with two bitmap words decodes");
+            kani::cover!(r.is_err() && len == 27, "a NACK_FRAG without count is rejected");
+            core::mem::forget(r);
         }
-        kani::cover!(r.is_ok() && nb == 33, "a NACK_FRAG with two bitmap words decodes");
-        kani::cover!(r.is_err() && len == 27, "a NACK_FRAG without count is rejected");
-        core::mem::forget(r);
     }
 }
 
